@@ -49,3 +49,25 @@ def replay_read_next(p):
     from props import hdlc_rt; return hdlc_rt.replay_read_next(p)
 def replay_read(p):
     from props import hdlc_rt; return hdlc_rt.replay_read(p)
+
+def history_search(p):
+    """bounded search for a frame (built octet by octet, as the reader builds it) or a reader history that breaks the frame contract; used to
+    confirm models that depend on a field the contract does not constrain (e.g. a cached verdict)"""
+    import random
+    from props.c02_rt import gen_frame
+    rnd = random.Random(p.get("seed", 0)); ev = 0
+    for _ in range(p.get("n", 1500)):
+        fr, _f = gen_frame(rnd, (True, False)); a = bytearray(fr); c = rnd.random()
+        if c < 0.45 and len(a) > 9: a[rnd.randrange(7, len(a))] ^= 1 << rnd.randrange(8)        # good header, damaged information field / FCS
+        elif c < 0.6: a[rnd.randrange(len(a))] ^= 1 << rnd.randrange(8)
+        elif c < 0.7: a = a[:rnd.randrange(len(a))]
+        ev += 1; bad = check_frame(mk(a), a)
+        if bad: return {"violated": True, "detail": {"octets": bytes(a).hex(), "broken": bad[:4]}, "found_by": "bounded search over generated frames"}
+        f = hdlc.HdlcFrame()                                                                      # the same frame with every property read after every octet
+        for k, b in enumerate(a):
+            f.append(b); bad = check_frame(f, a[:k + 1])
+            if bad: return {"violated": True, "detail": {"octets": bytes(a[:k + 1]).hex(), "history": "every accessor read after every append", "broken": bad[:4]}, "found_by": "bounded search over generated frames"}
+    from props import hdlc_rt
+    r = hdlc_rt.fallback_search(p, "over-approximated state")
+    if r.get("violated"): return r
+    return {"violated": False, "evaluations": ev, "detail": "no generated frame or reader history breaks the frame contract"}
